@@ -350,8 +350,11 @@ def run(rec, args):
                 inp["binning_method"] = bw if bw != "scalar" else float(rng.choice([0.08, 0.25, 0.6, 1.5]))
                 if bw is not None:
                     inp["weights"] = str(rng.choice(["integer", "integer", "integer_zero", "uniform", "none"]))
-                if bw is not None and inp["style"] == "discrete":
+                # (repeated sample values with DIFFERENT weights on the copies: a chain with importance weights; kept for half of the cases)
+                if bw is not None and inp["style"] == "discrete" and r % 2 == 0:
                     inp["style"] = "gauss"
+                if bw is not None and inp["style"] == "discrete":
+                    inp["weights"] = "uniform"
             else:
                 inp["bandwidth"] = float(inp["spread"] * rng.choice([0.05, 0.12, 0.3, 0.8]))
                 inp["kernel"] = str(rng.choice(["gaussian", "gaussian", "gaussian", "epanechnikov", "tophat"])) if cls == "DdtHistKDE" else "gaussian"
